@@ -3,9 +3,9 @@ from . import c06, c08
 PROP = "C07"
 COQ_FILES = ["Machine.v", "Conv.v", "Conv_proofs.v", "Ptr.v", "Mem.v", "Mem_proofs.v"]
 STATIC_DRIVERS = [
-    dict(name="mem32", src="mem.cpp", defines=["VERIF_CFG=verif_cfg32"], ops=["st32", "ld32"]),
-    dict(name="mem16", src="mem.cpp", defines=["VERIF_CFG=verif_cfg16"], ops=["st16", "ld16"]),
-    dict(name="memw", src="mem.cpp", defines=["VERIF_CFG=verif_cfgwide"], ops=["stw", "ldw"]),
+    dict(name="mem32", src="mem.cpp", defines=["VERIF_CFG=verif_cfg32"], ops=["st32", "ld32", "sta32", "lda32"]),
+    dict(name="mem16", src="mem.cpp", defines=["VERIF_CFG=verif_cfg16"], ops=["st16", "ld16", "sta16", "lda16"]),
+    dict(name="memw", src="mem.cpp", defines=["VERIF_CFG=verif_cfgwide"], ops=["stw", "ldw", "staw", "ldaw"]),
 ]
 DRIVERS = []
 
@@ -112,6 +112,18 @@ def gen_cases(tier, rng):
                         if k == "bool" or rng.random() < 0.5:
                             hb = [hexbytes(rng, k, span if k == "bool" else g)]
                         cases.append(" ".join(["ld%s" % cfg, variant, k, str(o), str(rng.randrange(256)), str(n)] + hb))
+        # whole-array stores and loads: T[6] and T[2][3] (six consecutive guest elements, row-major)
+        for k in [kk for kk in INTK if kk != "bool"] + ["enum", "float", "double"]:
+            g = gsize(cfg, k)
+            for shape in ("6", "2x3"):
+                for rep in range(2 if q else 8):
+                    off = rng.choice([64, 65, 128, 4096 - 6 * g, 4096 - 3 * g, rng.randrange(64, c["committed"] - 8192)])
+                    vals = values(k, rng, 6)
+                    vs = [rng.choice(vals) for _ in range(6)]
+                    cases.append("sta%s %s %s %d %d %s" % (cfg, k, shape, off, rng.randrange(256), " ".join(str(v) for v in vs)))
+                    for variant in ("tain", "unv"):
+                        hb = "".join(hexbytes(rng, k, g) for _ in range(6))
+                        cases.append("lda%s %s %s %s %d %d %s" % (cfg, variant, k, shape, off, rng.randrange(256), hb))
     cases += [c for c in c08.gen_cases(tier, rng) if " byv " not in c]
     return cases
 
